@@ -483,6 +483,12 @@ func init() {
 	g("RunPending", func(fr *frame, a []value) value { E.drain(); return nil })
 	g("Yield", func(fr *frame, a []value) value { E.yield(true); return nil })
 	g("Unfinished", func(fr *frame, a []value) value { return E.blockedGoroutines() })
+	g("OnHang", func(fr *frame, a []value) value {
+		E.hangKF = a[0].(string)
+		b, ok := a[1].(bool)
+		E.hangRegion = ok && b
+		return nil
+	})
 	g("GoroutinesSettled", func(fr *frame, a []value) value { return E.settle() })
 	g("VirtualNow", func(fr *frame, a []value) value { return E.desNow })
 	g("NewTimerChan", func(fr *frame, a []value) value {
@@ -559,6 +565,21 @@ func init() {
 			return E.newDESTimer(a[0], false)
 		}
 		return &xchan{cap: 1, timer: true, never: E.Params["TIMERS_FIRE"] != 1}
+	}
+	ex["time.AfterFunc"] = func(fr *frame, a []value) value {
+		var ch *xchan
+		if des() {
+			ch = E.newDESTimer(a[0], false)
+			ch.cap = 0
+			fn := a[1]
+			i := fr.i
+			ch.onFire = func() { spawnGoroutine(i, token.NoPos, fn, nil) }
+		} else {
+			ch = &xchan{cap: 1, timer: true, never: true}
+			E.Stubs["time.AfterFunc outside TIMERS_DES: never fires"]++
+		}
+		var cell value = structure{ch, false}
+		return &cell
 	}
 	ex["time.NewTimer"] = func(fr *frame, a []value) value {
 		var ch *xchan
